@@ -858,6 +858,21 @@ func (t *Collection) rootAddRef() *rootNodeLoc {
 	return t.root
 }
 
+// rootAddRefIfOpen is rootAddRef for a caller that took the handle from the
+// store's collection map a while ago: the mutator may have replaced or removed
+// the collection since (SetCollection on an existing name, RemoveCollection),
+// which closes the handle.  It returns nil in that case.
+func (t *Collection) rootAddRefIfOpen() *rootNodeLoc {
+	t.rootLock.Lock()
+	defer t.rootLock.Unlock()
+	if t.root == nil {
+		return nil
+	}
+	t.root.refs++
+	verifEvent(1, t.root)
+	return t.root
+}
+
 func (t *Collection) rootDecRef(r *rootNodeLoc) {
 	t.rootLock.Lock()
 	freeNodeLock.Lock()
